@@ -23,6 +23,9 @@ func readLocalSymbolTable(r Reader, cat Catalog) (SymbolTable, error) {
 		if fieldName == nil || fieldName.Text == nil {
 			// A field whose name has no known text ($0, an undefined import slot) is
 			// open content like any other unrecognised field.
+			if err := walkIgnored(r); err != nil {
+				return nil, err
+			}
 			continue
 		}
 
@@ -39,6 +42,8 @@ func readLocalSymbolTable(r Reader, cat Catalog) (SymbolTable, error) {
 			}
 			foundImport = true
 			imps, err = readImports(r, cat)
+		default:
+			err = walkIgnored(r)
 		}
 		if err != nil {
 			return nil, err
@@ -73,7 +78,7 @@ func readImports(r Reader, cat Catalog) ([]SharedSymbolTable, error) {
 	}
 
 	if r.Type() != ListType || r.IsNull() {
-		return nil, nil
+		return nil, walkIgnored(r)
 	}
 	if err := r.StepIn(); err != nil {
 		return nil, err
@@ -97,7 +102,7 @@ func readImports(r Reader, cat Catalog) ([]SharedSymbolTable, error) {
 // ReadImport reads an import definition.
 func readImport(r Reader, cat Catalog) (SharedSymbolTable, error) {
 	if r.Type() != StructType || r.IsNull() {
-		return nil, nil
+		return nil, walkIgnored(r)
 	}
 	if err := r.StepIn(); err != nil {
 		return nil, err
@@ -115,6 +120,9 @@ func readImport(r Reader, cat Catalog) (SharedSymbolTable, error) {
 		if fieldName == nil || fieldName.Text == nil {
 			// A field whose name has no known text ($0, an undefined import slot) is
 			// open content like any other unrecognised field.
+			if err := walkIgnored(r); err != nil {
+				return nil, err
+			}
 			continue
 		}
 
@@ -150,6 +158,10 @@ func readImport(r Reader, cat Catalog) (SharedSymbolTable, error) {
 					maxID = *i
 				}
 			}
+		}
+		// Whatever was not used above (an unknown field, a known one of the wrong type) is ignored.
+		if err := walkIgnored(r); err != nil {
+			return nil, err
 		}
 	}
 
@@ -196,7 +208,7 @@ func readImport(r Reader, cat Catalog) (SharedSymbolTable, error) {
 // ReadSymbols reads the symbols from a symbol table.
 func readSymbols(r Reader) ([]string, error) {
 	if r.Type() != ListType || r.IsNull() {
-		return nil, nil
+		return nil, walkIgnored(r)
 	}
 	if err := r.StepIn(); err != nil {
 		return nil, err
@@ -217,9 +229,33 @@ func readSymbols(r Reader) ([]string, error) {
 			}
 		} else {
 			syms = append(syms, "")
+			if err := walkIgnored(r); err != nil {
+				return nil, err
+			}
 		}
 	}
 
 	err := r.StepOut()
 	return syms, err
+}
+
+// WalkIgnored visits everything inside the current value if it is a container.
+// The reader ignores such values, but the caller's traversal can never reach
+// them, so this is the only place where malformed content in them can be noticed.
+func walkIgnored(r Reader) error {
+	if !IsContainer(r.Type()) || r.IsNull() {
+		return nil
+	}
+	if err := r.StepIn(); err != nil {
+		return err
+	}
+	for r.Next() {
+		if err := walkIgnored(r); err != nil {
+			return err
+		}
+	}
+	if err := r.Err(); err != nil {
+		return err
+	}
+	return r.StepOut()
 }
